@@ -44,10 +44,11 @@ def outcome_at(outcomes, val, hooks=None):
             if key not in memo:
                 try:
                     if isinstance(term, T) and term.op == 'len':
-                        if term not in val:
-                            raise CannotEval('length assumption %s' %
-                                             show(term))
-                        memo[key] = ('len', val[term])
+                        if term in val:
+                            memo[key] = ('len', val[term])
+                        else:
+                            memo[key] = ('len', len(ev(term.args[0], val,
+                                                       hooks)))
                     else:
                         memo[key] = ('v', bool(ev(term, val, hooks)))
                 except Raised:
